@@ -17,6 +17,7 @@ import vlib
 HERE = os.path.dirname(os.path.abspath(__file__))
 sys.path.insert(0, HERE)
 import gen_static  # noqa: E402
+import gen_conv  # noqa: E402
 
 LEVEL = "exploration"
 DYN = os.path.join(HERE, "dyn.cpp")
@@ -224,6 +225,56 @@ def run_static(ctx, fronts):
     ctx.stat("static_entries", len(es))
 
 
+# ------------------------------------------------------------------------------------------- conversion part
+def conv_build(cs, tag, ptype, name, std="c++14"):
+    src = os.path.join(GEN, "conv_%s_%s.cpp" % (name, tag))
+    _write(src, gen_conv.tu(cs, tag, ptype))
+    return vlib.compile_cxx(src, "c07-conv-%s-%s" % (name, tag), std=std, opt="-O0", san="asan", flags=["-I" + HERE])
+
+
+def conv_one(ctx, c, tag, ptype):
+    """build and run a single conversion case; ill-formed: note if listed, violation otherwise"""
+    h = hashlib.sha256(c.id.encode()).hexdigest()[:12]
+    try:
+        binary = conv_build([c], tag, ptype, "one" + h)
+    except vlib.HarnessError as ex:
+        errs = [l.strip() for l in str(ex).splitlines() if "error" in l and "HarnessError" not in l]
+        first = (errs[0] if errs else str(ex))[-400:]
+        if gen_conv.listed(c, tag):
+            ctx.stat("known_ill_formed_probes", 1)
+            ctx.note("capability gap (no executions, not a violation): conversion %s [%s] is ill-formed: %s" % (c.id, ptype, gen_conv.reason(c)))
+        else:
+            ctx.violation("C07/%s/%s:%s/ill-formed" % (c.kind, c.form, c.closure),
+                          "conversion %s [payload %s] no longer compiles (it is not in the committed list of ill-formed conversions): %s" % (c.id, ptype, first),
+                          harness="conv", args=["conv", c.id, tag])
+        return
+    if gen_conv.listed(c, tag):
+        ctx.note("capability: conversion %s [%s] is listed as ill-formed but compiles now; it was executed and judged" % (c.id, ptype))
+    ctx.run_harness(binary, [], env=ENV, tag="conv")
+
+
+def run_conv(ctx):
+    cs = gen_conv.cases()
+    jobs = []
+    for tag, ptype in gen_conv.PAYLOADS:
+        good = [c for c in cs if not gen_conv.listed(c, tag)]
+        probes = [c for c in cs if gen_conv.listed(c, tag)]
+
+        def table(tag=tag, ptype=ptype, good=good):
+            try:
+                binary = conv_build(good, tag, ptype, "all")
+            except vlib.HarnessError:
+                ctx.note("the conversion cases for %s were built one by one because the combined program did not compile" % ptype)
+                vlib.parallel([(lambda c=c: conv_one(ctx, c, tag, ptype)) for c in good], workers=8)
+                return
+            ctx.run_harness(binary, [], env=ENV, tag="conv")
+        jobs.append(table)
+        # the committed ill-formed conversions: probed with the Counted payload in the quick tier, with every payload in the thorough tier
+        if tag == "counted" or ctx.tier != "quick":
+            jobs += [(lambda c=c, tag=tag, ptype=ptype: conv_one(ctx, c, tag, ptype)) for c in probes]
+    vlib.parallel(jobs, workers=6)
+
+
 # ------------------------------------------------------------------------------------------- entry points
 def _lockify(ctx):
     """the harnesses run in threads: make the collecting methods of ctx atomic so that the measured counts are exact"""
@@ -247,7 +298,7 @@ def run(ctx):
     bit_len = 3 if quick else 4
     stds = ["c++14"] if quick else ["c++14", "c++20"]
     # both parts at once: the static tables compile while the dynamic binaries compile
-    vlib.parallel([lambda: run_static(ctx, fronts), lambda: run_dynamic(ctx, maxlen, bit_len, stds)], workers=2)
+    vlib.parallel([lambda: run_static(ctx, fronts), lambda: run_dynamic(ctx, maxlen, bit_len, stds), lambda: run_conv(ctx)], workers=3)
     ctx.rule = (
         "STATIC: every type identity generated by gen_static.py (closure_type_t, const_closure_type_t, ptr_closure_type_t, const_ptr_closure_type_t over "
         "{T, const T, T&, const T&, T&&, const T&&} x {int, Counted, MoveOnly, int*}; apply_cv_t and detail::forward_type_t over all 4 cv x 3 ref forms; return types of closure, "
@@ -284,6 +335,14 @@ def replay(ctx, rec):
             raise vlib.HarnessError("unknown static entry " + eid)
         os.makedirs(GEN, exist_ok=True)
         judge_one(ctx, es[0], cxx, std, gen_static.known_ill_formed(), "replay")
+        return
+    if args and args[0] == "conv":
+        os.makedirs(GEN, exist_ok=True)
+        cs = [c for c in gen_conv.cases() if c.id == args[1]]
+        if not cs:
+            raise vlib.HarnessError("unknown conversion case " + args[1])
+        tag = args[2]
+        conv_one(ctx, cs[0], tag, dict(gen_conv.PAYLOADS)[tag])
         return
     if args and args[0] == "build":
         kind, std = int(args[1]), args[2]
